@@ -79,6 +79,7 @@ PLAN = {
     "C05": (["size", "mix", "expiry"], ["Cfg_count", "Cfg_weightAll"]),
     "C06": (["expiry", "mix", "size", "load", "sweep"], ["Cfg_writing", "Cfg_countExp", "Cfg_weightAll"]),
     "C07": (["size", "size", "sweep", "mix"], ["Cfg_count", "Cfg_countExp", "Cfg_weight", "Cfg_weightAll"]),
+    "C08": (["load", "load"], ["Cfg_plain", "Cfg_refresh"]),
     "C10": (["load", "load", "stats"], ["Cfg_plain", "Cfg_writing", "Cfg_refresh", "Cfg_count"]),
     "C11": (["load"], ["Cfg_refresh", "Cfg_refreshC", "Cfg_refreshX", "Cfg_weightAll"]),
     "C12": (["deadline", "deadline", "expiry", "mix"], ["Cfg_creating", "Cfg_writing", "Cfg_accessing", "Cfg_custom", "Cfg_refreshX"]),
@@ -269,6 +270,29 @@ def finish(prop, tier, t0, cov, violations, known, broken):
         broken += wbroken
         for x, sc, path in wviol:
             violations.append(({"op": "concurrent", "pre": "", "field": x["pred"], "want": "", "got": x["detail"], "cfg": sc.get("size")}, path))
+    if prop == "C07" and not broken:
+        # the Expiration half of C07 at the level of the timer wheel: the exact fold of the real wheel (real geometry,
+        # jumps across levels and revolutions) must never fire a timer whose deadline has not passed
+        import c13check
+        wev, wtr, wviol, wbroken = c13check.wheel_fired_early(prop, tier)
+        cov["wheel_events"] = wev
+        cov["traces_validated_against_impl"] += wtr
+        broken += wbroken
+        for pred, detail, path in wviol:
+            violations.append(({"op": "wheel", "pre": "", "field": pred, "want": "", "got": str(detail)[:300], "cfg": None}, path))
+    if prop == "C08" and not broken:
+        # concurrent half of C08 (the larger one): gate-scheduled loads racing writes, judged by LoadHist.tla
+        import loadcheck
+        lcov, lviol, lbroken = loadcheck.run("C08", tier, None, collect_only=True)
+        cov["concurrent_histories"] = lcov["traces_validated_against_impl"]
+        cov["traces_validated_against_impl"] += lcov["traces_validated_against_impl"]
+        cov["states"] += lcov["states"]
+        cov["transitions"] += lcov["transitions"]
+        cov["mc_configs"] += lcov["mc"]
+        cov["switches_that_must_violate"] = lcov.get("switches_that_must_violate", [])
+        broken += lbroken
+        for x, sc, path in lviol:
+            violations.append(({"op": "concurrent", "pre": "", "field": x["pred"], "want": "", "got": x["detail"], "cfg": None}, path))
     if prop == "C11" and not broken:
         # asynchronous-executor half of C11: gate-scheduled refreshes / reloads judged by LoadHist.tla
         import loadcheck
